@@ -672,9 +672,18 @@ def _prepare_inlining(ll, inline, passes, opt_args):
         for (k, name, internal, in_main), d in zip(defs, dem):
             if inline(name, d, internal, in_main):
                 line = lines[k]
-                m = re.search(r'\) (?=[^()]*\{\s*$)', line)     # after the parameter list
                 # function attributes may precede the group reference: "... @f(i32 %0) noinline #0 {"
-                j = line.rfind(')')
+                # j = closing parenthesis of the parameter list (the one matching the '(' after the name)
+                mm = re.search(r'@("(?:[^"\\]|\\.)*"|[\w.$]+)\(', line)
+                j, depth = mm.end() - 1, 0
+                while j < len(line):
+                    if line[j] == '(':
+                        depth += 1
+                    elif line[j] == ')':
+                        depth -= 1
+                        if depth == 0:
+                            break
+                    j += 1
                 g = re.search(r' #\d+', line[j:])
                 pos = j + g.start() if g else line.rfind(' {')
                 if ' personality ' in line[j:]:
@@ -698,6 +707,47 @@ def keep_all_but_new_helpers(known_internal=()):
             return True
         base = dem.split('(')[0].split('::')[-1]
         return name in known or base in known
+    return keep
+
+
+def keep_known_members(class_prefixes, known):
+    """inline predicate for class templates in witness units: member functions of the given classes (demangled name
+    starts with one of class_prefixes) stay functions only when their source name is in `known`; any other member - a
+    helper introduced by refactoring - is folded into its callers.  Everything outside those classes is kept."""
+    known = set(known)
+
+    def keep(name, dem, internal, in_main):
+        # cut the parameter list: first '(' at template depth 0
+        depth, cut = 0, len(dem)
+        for k, ch in enumerate(dem):
+            if ch == '<':
+                depth += 1
+            elif ch == '>':
+                depth -= 1
+            elif ch == '(' and depth == 0 and not dem[:k].endswith('operator'):
+                cut = k
+                break
+        head = dem[:cut]
+        # template functions carry their return type in front ("It ns::C<..>::f<It>"): the qualified name starts after the
+        # last space at template depth 0
+        depth, start = 0, 0
+        for k, ch in enumerate(head):
+            depth += {'<': 1, '>': -1}.get(ch, 0)
+            if ch == ' ' and depth == 0:
+                start = k + 1
+        q = head[start:]
+        for cp in class_prefixes:
+            if q.startswith(cp):
+                depth, last = 0, 0
+                for k, ch in enumerate(q):
+                    depth += {'<': 1, '>': -1}.get(ch, 0)
+                    if ch == ':' and depth == 0:
+                        last = k + 1
+                base = q[last:].split('<')[0] if not q[last:].startswith('operator') else q[last:]
+                if '{lambda' in dem or base.startswith('~'):
+                    return True
+                return base in known
+        return True
     return keep
 
 
